@@ -36,21 +36,24 @@ class Worker:
             args += ["--rlimit-as", str(self.rlimit_as)]
         if self.cpu_limit:
             args += ["--rlimit-cpu", str(self.cpu_limit)]
-        self.errf = open(os.devnull, "wb") if False else None
-        self.p = subprocess.Popen(args, stdin=subprocess.PIPE, stdout=subprocess.PIPE, stderr=subprocess.PIPE,
+        import tempfile
+        fd, self.errpath = tempfile.mkstemp(prefix="vt-worker-err-", dir=core.scratch_root())
+        self.errf = os.fdopen(fd, "wb")
+        # stderr goes to a file, never a pipe: a worker blocked on a full stderr pipe while the parent is
+        # blocked writing a large case to its stdin would deadlock (seen with thousands of Rust panic messages)
+        self.p = subprocess.Popen(args, stdin=subprocess.PIPE, stdout=subprocess.PIPE, stderr=self.errf,
                                   env=self.env, cwd=core.ROOT)
-        os.set_blocking(self.p.stderr.fileno(), False)
         self.buf = b""
         self.err_tail = b""
 
     def _drain_err(self):
         try:
-            while True:
-                d = self.p.stderr.read(65536)
-                if not d:
-                    break
-                self.err_tail = (self.err_tail + d)[-4000:]
-        except (BlockingIOError, OSError, ValueError):
+            with open(self.errpath, "rb") as f:
+                f.seek(0, 2)
+                n = f.tell()
+                f.seek(max(0, n - 4000))
+                self.err_tail = f.read()
+        except OSError:
             pass
 
     def kill(self):
@@ -62,11 +65,15 @@ class Worker:
             self.p.wait(timeout=10)
         except Exception:
             pass
-        for f in (self.p.stdin, self.p.stdout, self.p.stderr):
+        for f in (self.p.stdin, self.p.stdout, self.errf):
             try:
                 f.close()
             except Exception:
                 pass
+        try:
+            os.unlink(self.errpath)
+        except OSError:
+            pass
 
     def run(self, case, timeout):
         line = (json.dumps(case) + "\n").encode()
@@ -77,24 +84,28 @@ class Worker:
             return self._dead()
         deadline = time.time() + timeout
         fd = self.p.stdout.fileno()
-        efd = self.p.stderr.fileno()
         while True:
             nl = self.buf.find(b"\n")
             if nl >= 0:
                 out, self.buf = self.buf[:nl], self.buf[nl + 1:]
-                self._drain_err()
                 try:
                     return json.loads(out)
                 except ValueError:
                     return {"status": "error", "exc": "ProtocolGarbage", "msg": out[:200].decode(errors="replace")}
             left = deadline - time.time()
             if left <= 0:
+                try:
+                    import signal
+                    self.p.send_signal(signal.SIGUSR1)
+                    time.sleep(0.5)
+                except Exception:
+                    pass
+                self._drain_err()
+                tail = self.err_tail[-1500:].decode(errors="replace")
                 self.kill()
                 self.start()
-                return {"status": "timeout"}
-            r, _, _ = select.select([fd, efd], [], [], min(left, 1.0))
-            if efd in r:
-                self._drain_err()
+                return {"status": "timeout", "stack": tail}
+            r, _, _ = select.select([fd], [], [], min(left, 1.0))
             if fd in r:
                 d = os.read(fd, 1 << 20)
                 if not d:
@@ -154,6 +165,9 @@ def worker_env(ext_table=None, block_ext=False, extra=None):
     env["VERIF_EXT_TABLE"] = json.dumps(ext_table or {})
     env["VERIF_EXT_BLOCK"] = "1" if block_ext else "0"
     env["VERIF_REPO"] = core.REPO
+    # no Rust backtraces: symbolising one after an allocation failure under a tight RLIMIT_AS can wedge the
+    # dying process (seen), turning an observable abort into a watchdog timeout
+    env["RUST_BACKTRACE"] = "0"
     if extra:
         env.update(extra)
     return env
